@@ -571,7 +571,7 @@ container interrogated a library-internal iterator).";
         ("level", J::s(level)),
         ("coverage", coverage),
         ("assumptions", J::Arr(vec![
-            J::s("sampling, not proof: a clean batch is evidence within the stated bands (lengths, lags, kth, windows, depth)"),
+            J::s("sampling, not proof: a clean batch is evidence within the stated bands (lengths 0..=12 quick / 0..=24 thorough, plus lengths within 1 of a power of two up to 256 quick / 1024 thorough; lags, kth, windows relative to the length; depth <= 6); size thresholds elsewhere are not reached"),
             J::s("a TrustedLen implementor supplied by the caller is honest (SimSource is exact by construction)"),
             J::s("panics thrown by user callbacks, allocation failure and lying TrustedLen impls are not injected: no listed property speaks about them"),
             J::s("raw-pointer collectors are only executed natively after the probe phase showed an exact size hint, so the harness itself stays free of undefined behaviour"),
